@@ -140,7 +140,7 @@ func metaGenHistory(r *Rng, profile string) string {
 		total += v
 	}
 	// deterministic order
-	sortStrings(names)
+	metaSortStrings(names)
 	for len(g.ops) < n {
 		x := r.Intn(total)
 		var op string
@@ -217,7 +217,7 @@ func metaGenHistory(r *Rng, profile string) string {
 						es = append(es, strconv.Itoa(pn))
 					}
 				}
-				sortStringsNumeric(es)
+				metaSortStringsNumeric(es)
 				if r.Chance(15) && len(es) > 1 {
 					es[0], es[1] = es[1], es[0]
 				}
@@ -264,14 +264,14 @@ func metaOpBK(op string) (string, string) {
 	return f[1], f[2]
 }
 
-func sortStrings(s []string) {
+func metaSortStrings(s []string) {
 	for i := 1; i < len(s); i++ {
 		for j := i; j > 0 && s[j] < s[j-1]; j-- {
 			s[j], s[j-1] = s[j-1], s[j]
 		}
 	}
 }
-func sortStringsNumeric(s []string) {
+func metaSortStringsNumeric(s []string) {
 	for i := 1; i < len(s); i++ {
 		for j := i; j > 0; j-- {
 			a, _ := strconv.Atoi(s[j])
@@ -308,7 +308,7 @@ func (p *metaProp) Run(in string, scratch string) Result {
 	for t := range m.tags {
 		tags = append(tags, t)
 	}
-	sortStrings(tags)
+	metaSortStrings(tags)
 	// failures owned by this property; attributed to known findings only if every one of them is
 	var owned []string
 	kfs := map[string]bool{}
